@@ -1,6 +1,6 @@
 (* Non-vacuity: the hypotheses of the theorems are met by concrete,
    non-trivial instances, and the conclusions are visibly non-trivial. *)
-From V Require Import Common.Base C05.Syntax C05.Sem C05.Lower C05.Frame C05.LowerProofs C05.SimLogic C05.Steps C05.Compose C05.Visit C05.Chain C05.Witness.
+From V Require Import Common.Base C05.Syntax C05.Sem C05.Lower C05.Frame C05.LowerProofs C05.SimLogic C05.Steps C05.Compose C05.Visit C05.Chain C05.Chain2 C05.Above C05.Visit2 C05.Witness.
 
 (* f() ?? g() : the left operand is captured in a temporary *)
 Definition ex_a := ECall (EId 3) [] OcNone.
@@ -163,4 +163,19 @@ Example ex_nested2_model :
           (EIf (EEqNull false (EAssign (ETmp 0) ex_a)) EUndef
                (EDot (EAssign (ETmp 1) (EDot (ETmp 0) 1 OcNone)) 2 OcNone))))
         EUndef (ECallThis (ETmp 2) (ETmp 1) [ENum 1]).
+Proof. reflexivity. Qed.
+
+(* whole-visitor theorem with chains:
+   delete (v3.p1?.(f() ?? 2).p2)  and  v3?.p1[g(1)] ||= f()?.p2 *)
+Definition ex_c1 := EDelete (EDot (ECall (EDot (EId 3) 1 OcNone) [EBin BNullish ex_a (ENum 2)] OcStart) 2 OcCont).
+Definition ex_c2 := EOpAsg AOr (EIndex (EDot (EId 3) 1 OcNone) ex_b OcNone) (EDot ex_a 2 OcStart).
+Example ex_src2_c1 : src2 all_features (fun x => x = 3) ex_c1.
+Proof. cbn. repeat split; auto; try (intros; discriminate); unfold Visit.all_const; cbn; intros; intuition congruence. Qed.
+Example ex_src2_c2 : src2 all_features (fun x => x = 3) ex_c2.
+Proof. cbn. repeat split; auto; try (intros; discriminate); unfold Visit.all_const; cbn; intros; intuition congruence. Qed.
+Example ex_c1_lowered :
+  lower all_features ex_c1
+  = EIf (EEqNull false (EAssign (ETmp 1) (EDot (EId 3) 1 OcNone))) (EBool true)
+        (EDelete (EDot (ECallThis (ETmp 1) (EId 3)
+                          [EIf (EEqNull true (EAssign (ETmp 0) ex_a)) (ETmp 0) (ENum 2)]) 2 OcNone)).
 Proof. reflexivity. Qed.
